@@ -6,7 +6,7 @@
 (*   {"dags": [D...], "traces": [{tid, d, ev: [event...]}]}                 *)
 (* D = {n, deps, kind, const, np, defaults, argof}; an event is a uniform  *)
 (* record (see harness/e4_driver.py):                                      *)
-(*   op i j x f r xx t dep args out e dup used nonces retn fresh keys      *)
+(*   op i j x f fc r xx t dep args out e dup used nonces retn fresh keys   *)
 (*   xkeys cached                                                          *)
 (* The specification is total; violated clauses accumulate in `viol`.      *)
 (***************************************************************************)
@@ -28,7 +28,7 @@ NF == 3     \* cache files
 VARIABLES tid, pos, val, ex, cache, maxn, viol, cnt
 vars == <<tid, pos, val, ex, cache, maxn, viol, cnt>>
 
-NoEx == [i |-> 0, S |-> {}, st |-> "none", dep |-> None]
+NoEx == [i |-> 0, S |-> {}, st |-> "none", dep |-> None, fc |-> 0]
 Init ==
   /\ tid \in 1..NT /\ pos = 1
   /\ val = [i \in 1..NI |-> [k \in 1..Ds[Traces[tid].d].n |-> 0]]
@@ -127,8 +127,31 @@ Step ==
                   <<raised /\ ~may, "C12.spurious-raise">>,
                   <<e.out \notin {0, 3}, "C15.spurious-error">>})
             IN /\ viol' = Mark(bad \cup KeysClauses(D, e, v))
-               /\ ex' = [ex EXCEPT ![e.x] = IF e.out = 0 THEN [i |-> i, S |-> Ssel, st |-> "new", dep |-> Dp] ELSE NoEx]
+               /\ ex' = [ex EXCEPT ![e.x] = IF e.out = 0 THEN [i |-> i, S |-> Ssel, st |-> "new", dep |-> Dp, fc |-> e.fc] ELSE NoEx]
                /\ UNCHANGED <<val, cache, maxn>>
+       [] e.op = "exrun" /\ ex[e.x].st = "new" /\ ex[e.x].fc # 0 /\ Given(cache[ex[e.x].fc]) ->
+            \* an executor created earlier with from_cache runs now: nothing that is in the file, and nothing the
+            \* instance has set up in the meantime, is executed
+            LET S == ex[e.x].S
+                ii == ex[e.x].i
+                vv == val[ii]
+                have == cache[ex[e.x].fc]
+                E == Bits(n, e.e)
+                ok == e.out = 0
+                vnew == IF ok THEN [k \in 1..n |-> IF k \in SetupOf(D, S) /\ vv[k] = 0 THEN e.nonces[k] ELSE vv[k]] ELSE vv
+                bad == Clauses({
+                  <<e.out # 0, "C18.restart-error">>,
+                  <<E \cap have # {}, "C18.recomputed">>,
+                  <<E \cap DoneSet(D, vv) # {}, "C11.rerun">>,
+                  <<E \cap DoneSet(D, vv) # {}, "C03.hist-exec">>,
+                  <<ok /\ E # (S \ have) \ DoneSet(D, vv), "C18.exec">>,
+                  <<ok /\ ~e.fresh, "C18.value">>,
+                  <<Bits(n, e.dup) # {}, "C03.twice">>})
+            IN /\ viol' = Mark(bad \cup Clauses({<<e.xkeys # 0, "C15.results-polluted">>}))
+               /\ val' = [val EXCEPT ![ii] = vnew]
+               /\ maxn' = IF ok THEN MaxOf(D, e) ELSE maxn
+               /\ ex' = [ex EXCEPT ![e.x].st = IF ok THEN "ok" ELSE "failed"]
+               /\ UNCHANGED cache
        [] e.op \in {"exrun", "cacherun"} /\ ex[e.x].st = "new" ->
             LET S == ex[e.x].S
                 ii == ex[e.x].i
@@ -173,6 +196,23 @@ Step ==
             IN /\ viol' = Mark(bad \cup Clauses({<<e.xkeys # 0, "C15.results-polluted">>}))
                /\ val' = [val EXCEPT ![i] = vnew]
                /\ maxn' = IF ok THEN MaxOf(D, e) ELSE maxn
+               /\ UNCHANGED <<ex, cache>>
+       [] e.op = "gsetup" ->
+            \* setup() of instances i and j at the same time (gathered awaits / two threads): both return, every setup
+            \* node that is not yet computed on an instance runs exactly once for it
+            LET vj == val[e.j]
+                need(k) == (IF k \in SetupNodes(D) /\ v[k] = 0 THEN 1 ELSE 0) + (IF k \in SetupNodes(D) /\ vj[k] = 0 THEN 1 ELSE 0)
+                ok == e.out = 0
+                bad == Clauses({
+                  <<e.out = 6, "C09.hang">>,
+                  <<e.out = 6, "C17.concurrent-setup-hang">>,
+                  <<e.out \notin {0, 6}, "C15.spurious-error">>,
+                  <<ok /\ \E k \in 1..n : e.counts[k] # need(k), "C11.setup-exec">>})
+            IN /\ viol' = Mark(bad)
+               /\ val' = IF ok THEN [val EXCEPT ![i] = [k \in 1..n |-> IF k \in SetupNodes(D) THEN e.nonces[k] ELSE v[k]],
+                                                 ![e.j] = [k \in 1..n |-> IF k \in SetupNodes(D) THEN e.nonces2[k] ELSE vj[k]]]
+                          ELSE val
+               /\ maxn' = IF ok THEN LET s2 == {e.nonces[k] : k \in 1..n} \cup {e.nonces2[k] : k \in 1..n} \cup {maxn} IN CHOOSE m \in s2 : \A y \in s2 : y <= m ELSE maxn
                /\ UNCHANGED <<ex, cache>>
        [] e.op = "copy" ->
             /\ val' = [val EXCEPT ![e.j] = v]
